@@ -40,7 +40,7 @@ def check(run):
             files = {"site/main.css": css.encode(), "site/sub/deep/other.css": css2.encode(), "site/readme.txt": b"not css", "site/old_cm.css": b".stale { color: #777 }"}
             jobs.append((files, "site", args)); metas.append((files, "site", dbg, mode, prem))
         else:
-            name = run.rng.choice(["a.css", "my.style.css", "sub/x.css", "Ünï.css", "with space.css"])
+            name = run.rng.choice(["a.css", "my.style.css", "sub/x.css", "Ünï.css", "with space.css", "theme_cm.css", "lib.min.css"])
             files = {name: css.encode("utf-8")}
             jobs.append((files, name, args)); metas.append((files, name, dbg, mode, prem))
     jobs.append(({"k2.css": b".ok { color: #777 } .x { *color: #777; color: #777 } .after { color: #888 }"}, "k2.css", []))
@@ -59,6 +59,7 @@ def check(run):
             if im["after"].get(k) != v:
                 run.violation("an input file was modified or removed", case, details={"file": k})
         # (2) nothing but <name>_cm.css beside each processed input, and the report in the working directory
+        # directory runs skip *_cm.css; a file given directly is processed whatever its name
         css_inputs = [k for k in files if k.endswith(".css") and not (target == "site" and k.endswith("_cm.css"))]
         allowed = set()
         for k in css_inputs:
